@@ -226,8 +226,10 @@ def run_property(prop_id, tier='quick', seed=0, jobs=None):
             cross[-1]['disagreements'] = len(cc['disagree'])
             if cc['disagree']:
                 crashes.append({'name': 'crosscheck ' + r['name'], 'kind': 'crosscheck',
-                                'detail': 'engine/contract disagrees with the real code on sampled inputs: %s'
-                                % json.dumps(cc['disagree'][0], default=str)[:1500]})
+                                'detail': 'engine/contract disagrees with the real code on sampled inputs; clauses %s; native %s; inputs %s'
+                                % (sorted({f['obligation'] for d in cc['disagree'] for f in (d.get('failed') or [])})[:6],
+                                   json.dumps({k: v for k, v in (cc['disagree'][0].get('native') or {}).items() if k != 'value'}, default=str)[:300],
+                                   json.dumps(cc['disagree'][0].get('inputs'), default=str)[:1500])})
             continue
         paths += r['paths'] if ('@' not in r['name'] or r['name'].split('@')[1].startswith('0/')) else 0
         assumptions |= set(r['assumptions'])
